@@ -100,8 +100,8 @@ TIES = {
 EXTRA_MODULES = {
     "C01": ["Bch.Props.C01Script"], "C04": ["Bch.Props.C04Addr"], "C05": ["Bch.Props.C05Reach"],
     "C08": ["Bch.Props.C08BloomTx", "Bch.Props.C08Cost", "Bch.Props.C08Builders"], "C10": ["Bch.Props.C10Fuel", "Bch.Props.C10Script"], "C16": ["Bch.Props.C16Tx", "Bch.Props.C16Raw"],
-    "C19": ["Bch.Props.C19AnySort"], "C20": ["Bch.Props.C20All"],
-    "C07": ["Bch.Props.C07Spec"], "C11": ["Bch.Props.C11Select", "Bch.Props.C11Heap"], "C12": ["Bch.Props.C12Heap"], "C18": ["Bch.Props.C18Heap"], "C09": ["Bch.Props.C09Obj"], "C15": ["Bch.Props.C15New"],
+    "C19": ["Bch.Props.C19AnySort", "Bch.Props.C19Heap"], "C20": ["Bch.Props.C20All"],
+    "C07": ["Bch.Props.C07Spec"], "C11": ["Bch.Props.C11Select", "Bch.Props.C11Heap"], "C12": ["Bch.Props.C12Heap"], "C18": ["Bch.Props.C18Heap"], "C09": ["Bch.Props.C09Obj", "Bch.Props.C09Shared"], "C15": ["Bch.Props.C15New"],
 }
 for _k, _v in EXTRA_MODULES.items():
     PROPS[_k]["modules"] = PROPS[_k].get("modules", []) + _v
